@@ -13,6 +13,7 @@ FIRST = "a5.core.serialization.is_first_child"
 STRIDE = "a5.core.serialization.get_stride"
 UNCOMPACT = "a5.core.compact.uncompact"
 COMPACT = "a5.core.compact.compact"
+SORTKEY = "a5.core.compact._hierarchy_key"
 
 EXPECT = "(cells[k] if RES(cells[k]) == target_resolution else CHILD(cells[k], target_resolution, j))"
 NC = "NCHILD(RES(cells[k]), target_resolution)"
@@ -74,11 +75,25 @@ def register_compact(reg, coverage=True, canonical=False):
                      ensures=[("stride", "result == STRIDEF(resolution) and result > 0")], result_type="int"))
     reg.add(Contract(PARENT, requires=[("valid-id", "VALIDID(index) and RES(index) >= 0"), ("default-level", "parent_resolution is None")],
                      ensures=[("parent", "result == PAR1(index) and VALIDID(result) and RES(result) == RES(index) - 1")], result_type="int"))
+    # the key compact sorts by (bit level: C09 tasks sort-key[r=..] tie it to the hierarchical key specification)
+    reg.add(Contract(SORTKEY, requires=[("valid-id", "VALIDID(cell)")], ensures=[("key", "result == KEYF(cell)")], result_type="int",
+                     logical_result="KEYF(cell)"))
     outer = [("elements-valid", "all(VALIDID(current_cells[k]) and -1 <= RES(current_cells[k]) and RES(current_cells[k]) <= RX "
                                 "for k in range(0, len(current_cells)))")]
     inner = [("index-range", "0 <= i and i <= len(current_cells)"),
              ("emitted-valid", "all(VALIDID(result[k]) and -1 <= RES(result[k]) and RES(result[k]) <= RX for k in range(0, len(result)))")]
+    ghost_init = ghost_step = None
     if coverage:
+        # ghost state of the inner loop: CR = "an emitted cell covers x", CC = "a consumed cell covers x",
+        # gi = value of i at the previous loop head (exactly one cell is emitted per iteration)
         outer.append(("coverage-kept", "(%s) == (%s)" % (ANY_CUR, ANY_CELLS)))
-        inner.append(("coverage-split", "((%s) or (%s)) == (%s)" % (ANY_RESULT, ANY_CUR_FROM_I, ANY_CUR)))
-    reg.add(Contract(COMPACT, loops={0: LoopContract(invariant=outer), 1: LoopContract(invariant=inner)}))
+        ghost_init = "CR = False\nCC = False\ngi = 0"
+        ghost_step = ("CR = CR or ANCX(result[len(result) - 1])\n"
+                      "CC = CC or any(ANCX(current_cells[k]) for k in range(gi, i))\n"
+                      "gi = i")
+        inner.append(("ghost-index", "gi == i"))
+        inner.append(("ghost-emitted-is-faithful", "CR == (%s)" % ANY_RESULT))
+        inner.append(("ghost-consumed-is-faithful", "CC == any(ANCX(current_cells[k]) for k in range(0, i))"))
+        inner.append(("emitted-covers-exactly-what-was-consumed", "CR == CC"))
+    reg.add(Contract(COMPACT, loops={0: LoopContract(invariant=outer),
+                                     1: LoopContract(invariant=inner, ghost_init=ghost_init, ghost_step=ghost_step)}))
